@@ -1,0 +1,5 @@
+//go:build !verif
+
+package wal
+
+func verifSyncGate(*wal) {}
